@@ -276,7 +276,8 @@ fn expected_op(orc: &mut Oracle, line: &str) -> Option<(u8, Vec<(u64, u64)>)> {
   Some((d, r))
 }
 
-fn concurrent_history(rep: &mut Report, orc: &mut Oracle, rng: &mut Rng) {
+/// returns false when the store stopped answering (dead-lock): no further store call may be made
+fn concurrent_history(rep: &mut Report, orc: &mut Oracle, rng: &mut Rng) -> bool {
   // shared read-only operands
   let n_shared = 4usize;
   let q = ALL_Q[rng.below(3) as usize];
@@ -330,13 +331,13 @@ fn concurrent_history(rep: &mut Report, orc: &mut Oracle, rng: &mut Rng) {
   }
   drop(tx);
   let mut results = Vec::new();
-  let deadline = std::time::Duration::from_secs(60);
+  let deadline = std::time::Duration::from_secs(25);
   for _ in 0..nthreads {
     match rx.recv_timeout(deadline) {
       Ok(x) => results.push(x),
       Err(_) => {
-        rep.violation("concurrent store calls do not complete (deadlock or livelock suspected)", &format!("CONC threads={} calls={}", nthreads, ncalls), "timeout after 60 s", "", "C13 (no deadlock)");
-        return;
+        rep.violation("concurrent store calls do not complete (deadlock or livelock suspected)", &format!("CONC q={} threads={} calls={} shared={} scripts={:?}", q.c(), nthreads, ncalls, shared.iter().map(|m| m.dr()).collect::<Vec<_>>().join(" | "), scripts).chars().take(3000).collect::<String>(), "no answer from the store for 25 s", "every call returns", "C13 (no sequence of calls deadlocks the store)");
+        return false;
       }
     }
   }
@@ -390,13 +391,14 @@ fn concurrent_history(rep: &mut Report, orc: &mut Oracle, rng: &mut Rng) {
   rep.count(&format!("concurrent-history:threads={}", nthreads));
   rep.nontrivial(&case);
   rep.sample(&case.chars().take(300).collect::<String>());
+  true
 }
 
 pub fn run(ctx: &Ctx) -> Report {
   let mut rep = Report::default();
   let mut orc = Oracle::spawn();
   let mut rng = Rng::new(ctx.seed);
-  rep.rule = "(a) sequential histories of 20-200 calls (add of S/T/F/ST MOCs, copy, drop, read, complement, degrade, and/or/xor/minus, time fold, space fold, n-ary and/or/xor over 0-6 operands, calls on never-issued and on dead handles, ill-kinded operand pairs, 257 copies of one handle) on the real global store vs the extracted slab/registry model with a run-time handle bijection; (b) concurrent histories: 2-8 threads x 5-40 calls on 4 shared read-only operands (binary ops, complement, copy+drop of a shared operand, drop of own results), results compared with the extracted operator models, pairwise distinct live handles, 60 s watchdog, no poisoned-lock error. non-trivial = history of >= 5 calls; distinct = distinct history".to_string();
+  rep.rule = "(a) sequential histories of 20-200 calls (add of S/T/F/ST MOCs, copy, drop, read, complement, degrade, and/or/xor/minus, time fold, space fold, n-ary and/or/xor over 0-6 operands, calls on never-issued and on dead handles, ill-kinded operand pairs, 257 copies of one handle) on the real global store vs the extracted slab/registry model with a run-time handle bijection; (b) concurrent histories: 2-8 threads x 5-40 calls on 4 shared read-only operands (binary ops, complement, copy+drop of a shared operand, drop of own results), results compared with the extracted operator models, pairwise distinct live handles, 25 s watchdog, no poisoned-lock error. non-trivial = history of >= 5 calls; distinct = distinct history".to_string();
   let nseq = ctx.n(400, 15_000);
   for _ in 0..nseq {
     let len = rng.range(20, 200) as usize;
@@ -404,7 +406,10 @@ pub fn run(ctx: &Ctx) -> Report {
   }
   let nconc = ctx.n(150, 6_000);
   for _ in 0..nconc {
-    concurrent_history(&mut rep, &mut orc, &mut rng);
+    if !concurrent_history(&mut rep, &mut orc, &mut rng) {
+      rep.notes.push("the store stopped answering: the run was cut short".to_string());
+      break;
+    }
   }
   rep.notes.push(format!("oracle calls: {}", orc.calls));
   rep
